@@ -469,6 +469,19 @@ func (p *Program) SSA() *ssa.Program {
 	return prog
 }
 
+// srcOfSSA maps an SSA function of the repository back to its source-level function (nil if synthetic).
+func (p *Program) srcOfSSA(fn *ssa.Function) *FuncSrc {
+	switch n := fn.Syntax().(type) {
+	case *ast.FuncLit:
+		return p.byLit[n]
+	case *ast.FuncDecl:
+		if o, ok := fn.Object().(*types.Func); ok {
+			return p.byObj[o]
+		}
+	}
+	return nil
+}
+
 func (p *Program) SSAFuncs() []*ssa.Function { p.SSA(); return p.ssaFuncs }
 
 func (p *Program) SSAFunc(fn *types.Func) *ssa.Function {
